@@ -148,6 +148,17 @@ unsafe fn validate_utf8_avx2(input: &[u8]) -> bool {
 ///
 /// # Safety
 /// The CPU must support AVX2; the caller checks `is_x86_feature_detected!`.
+/// Verification hook: the AVX2 accept kernel without the scalar fallback.
+///
+/// # Safety
+///
+/// Requires AVX2.
+#[cfg(feature = "verif-hooks")]
+#[doc(hidden)]
+pub unsafe fn verif_validate_utf8_avx2(input: &[u8]) -> bool {
+    unsafe { validate_utf8_avx2(input) }
+}
+
 #[cfg(test)]
 pub(crate) unsafe fn validate_utf8_avx2_unchecked(input: &[u8]) -> bool {
     // SAFETY: the caller guarantees AVX2 is available.
